@@ -847,6 +847,22 @@ _REAL_PRIVATE_TENSOR_ATTRS = frozenset(
 )
 
 
+_MF_NAMES = None
+
+
+def _method_function_names():
+    global _MF_NAMES
+    if _MF_NAMES is None:
+        import json as _json, os as _os
+
+        try:
+            _MF_NAMES = set(_json.load(open(_os.path.join(_os.path.dirname(_os.path.abspath(__file__)), "tensor_methods_also_functions.json"))))
+        except Exception:
+            _MF_NAMES = set()
+        _MF_NAMES -= {"where"}
+    return _MF_NAMES
+
+
 def tensor_attr(I, t, name):
     IN = _IN()
     B = IN.Builtin
@@ -902,6 +918,13 @@ def tensor_attr(I, t, name):
                     raise Unsupported(f"in-place {name} changing the shape")
                 tt.val = rv
                 return tt
+    if M is None and name in _method_function_names():
+        # x.f(...) where torch.f(x, ...) is modelled and torch documents the method as the function with `self` first
+        # (names taken from the installed torch: tpv/tensor_methods_also_functions.json; `where` differs: self is not
+        # the condition)
+        g = I.repo.externals["torch"].table.get(name)
+        if g is not None and isinstance(g, B):
+            M = lambda I2, tt, *a, _g=g, **k: _g.fn(I2, tt, *a, **k)
     if M is None:
         if name.startswith("_") and not name.startswith("__") and name not in _REAL_PRIVATE_TENSOR_ATTRS:
             raise IN.RaisedEx("AttributeError", f"'Tensor' object has no attribute '{name}'")
@@ -1063,6 +1086,56 @@ def _inplace(opcls):
     return g
 
 
+def _m_new_filled(value):
+    """x.new_zeros / new_ones(size): a fresh tensor of x's dtype (and float width) filled with `value`"""
+
+    def f(I, t, *size, dtype=None, device=None, requires_grad=False, **kw):
+        kind = dtype_kind(dtype, lift(t).dtype)
+        r = _full(I, _shape_arg(I, size), value, kind)
+        if dtype is None and kind == "real":
+            r.meta["fw"] = t.meta.get("fw")
+        return r
+
+    return f
+
+
+def _m_new_full(I, t, size, fill_value, dtype=None, device=None, **kw):
+    kind = dtype_kind(dtype, lift(t).dtype)
+    if isinstance(fill_value, Tensor):
+        fill_value = tlib.item_value(I, fill_value)
+    r = _full(I, _shape_arg(I, [size]), fill_value, kind)
+    if dtype is None and kind == "real":
+        r.meta["fw"] = t.meta.get("fw")
+    return r
+
+
+def _m_select(I, t, dim, index):
+    """x.select(dim, i) = x[(slice(None),) * dim + (i,)] (a view)"""
+    a = lift(t)
+    k = tshape.norm_axis(I, dim, a.rank)
+    return tshape.getitem(I, t if isinstance(t, Tensor) else Tensor(a), tuple([slice(None)] * k + [index]))
+
+
+def t_nonzero(I, t, as_tuple=False, **kw):
+    if as_tuple is not True:
+        raise Unsupported("nonzero(as_tuple=False)")
+    return tshape.where_rows(I, t)
+
+
+def t_vstack(I, ts):
+    ts = I.iterate(ts)
+    if any(lift(x).rank < 2 for x in ts):
+        raise Unsupported("vstack of tensors with fewer than two axes")
+    return t_cat(I, ts, 0)
+
+
+def t_hstack(I, ts):
+    ts = I.iterate(ts)
+    if any(lift(x).rank < 2 for x in ts):
+        raise Unsupported("hstack of tensors with fewer than two axes")
+    return t_cat(I, ts, 1)
+
+
 TENSOR_METHODS = {
     "reshape": _m_reshape,
     "view": _m_reshape,
@@ -1123,6 +1196,11 @@ TENSOR_METHODS = {
     "view_as": t_view_as,
     "expand_as": lambda I, t, other: Tensor(tshape.expand(I, t.val, [d.size() for d in lift(other).shape])),
     "narrow": t_narrow,
+    "select": _m_select,
+    "new_zeros": _m_new_filled(0),
+    "new_ones": _m_new_filled(1),
+    "new_full": _m_new_full,
+    "nonzero": t_nonzero,
     "neg": lambda I, t: Tensor(tlib.ew1(t.val, lambda x: -zreal(x), "real")),
     "tanh": lambda I, t: Tensor(tlib.ew1(t.val, lambda x: tlib.tanh_term(zreal(x)), "real")),
 }
@@ -1262,6 +1340,10 @@ def install(I):
         "all": B("all", t_all),
         "any": B("any", t_any),
         "cat": B("cat", t_cat),
+        "vstack": B("vstack", t_vstack),
+        "hstack": B("hstack", t_hstack),
+        "nonzero": B("nonzero", t_nonzero),
+        "select": B("select", _m_select),
         "stack": B("stack", t_stack),
         "column_stack": B("column_stack", t_column_stack),
         "meshgrid": B("meshgrid", t_meshgrid),
